@@ -372,29 +372,63 @@ def job_bits(j, seed):
     return {'obligations': obs, 'candidates': cands, 'paths': len(paths)}
 
 
+class FileObj:
+    """A caller-owned file object (text stream at an arbitrary position: the caller may have written or skipped something
+    in front of the table).  Every attribute the code under test looks up or calls is recorded; numpy (the text layer) is
+    the only one allowed to use it."""
+
+    def __init__(self):
+        object.__setattr__(self, 'log', [])
+
+    def __getattr__(self, name):
+        if name.startswith('__') and name.endswith('__'):
+            raise AttributeError(name)
+        log = object.__getattribute__(self, 'log')
+        log.append(('getattr', name))
+
+        def method(*a, **kw):
+            log.append(('call', name, a))
+            return 0
+        return method
+
+
 def job_roundtrip(j, seed):
-    n = j
+    n, target = j if isinstance(j, tuple) else (j, 'path')
     from symex import core as C
     from .symutil import fresh_run
 
     sc, xye = _load()
     fresh_run()
     obs, cands = [], []
-    case = {'kind': 'roundtrip', 'n': n}
+    case = {'kind': 'roundtrip', 'n': n, 'target': target}
     da = XDA(sc, C, True, n)
     for c in (da.ndim == 1, ~da.masks.b, da.ncoords == 1, da.has_dim, ~da.edges['DIM']):
         C.CTX.assume(c)
     C.CTX.fork_timeout_ms = 3000
 
+    fobj_w, fobj_r = ('FILE', 'FILE') if target == 'path' else (FileObj(), FileObj())
+
     def run():
         _Calls.saved = None
-        xye.save_xye('FILE', da)
+        for fo in (fobj_w, fobj_r):
+            if target != 'path':
+                fo.log.clear()
+        xye.save_xye(fobj_w, da)
         hdr = _Calls.header
-        out = xye.load_xye('FILE', dim='DIM', unit='counts', coord_unit='us')
-        return out, hdr
+        given_w = _Calls.fname
+        out = xye.load_xye(fobj_r, dim='DIM', unit='counts', coord_unit='us')
+        return out, hdr, given_w, _Calls.loaded_from, ([] if target == 'path' else list(fobj_w.log)), ([] if target == 'path' else list(fobj_r.log))
 
     paths = C.explore(run)
     for k, p in enumerate(paths):
+        if p.exc is None and not p.inconclusive:
+            out, hdr, given_w, given_r, log_w, log_r = p.value
+            p.value = (out, hdr)
+            ob = C.prove(f'roundtrip[n={n},{target}]:path{k}:the target is handed to the text layer as given and is not touched otherwise (no seek / read / write / truncate by the package; calls: {[c_[1] for c_ in log_w + log_r]})',
+                         C.B.const(given_w is fobj_w and given_r is fobj_r and not log_w and not log_r))
+            obs.append(ob_dict(ob))
+            if ob.status != 'discharged':
+                cands.append(('C15:target', case, f'file object used by the package itself: {[c_[:2] for c_ in log_w + log_r][:4]}'))
         if p.exc is not None or p.inconclusive:
             obs.append({'name': f'roundtrip[n={n}]:path{k}', 'status': 'inconclusive' if p.inconclusive else 'violated', 'detail': str(p.inconclusive or repr(p.exc))[:200], 't': 0})
             if p.exc is not None:
@@ -429,7 +463,7 @@ def run(chk):
     chk.functions = loader.describe_exprs(['xye.save_xye', 'xye.load_xye', 'xye._deduce_coord', 'xye._generate_xye_header'], {**globals(), **locals()})
     jobs = [(hv, cg, n) for hv in (True, False) for cg in (None, 'DIM', 'other') for n in ((1, 2) if chk.tier == 'quick' else (1, 2, 3))]
     run_jobs(chk, job_refusal, jobs)
-    run_jobs(chk, job_roundtrip, [1, 2, 3])
+    run_jobs(chk, job_roundtrip, [(1, 'path'), (2, 'path'), (3, 'path'), (2, 'file-object')])
     run_jobs(chk, job_bits, [1, 2])
     chk.bounds = {'configuration': 'ndim (symbolic integer), number of coordinates (symbolic, 0..3), masks / dimension-coordinate present / per-coordinate bin-edge and alignment flags (symbolic Booleans); variances present and coord argument (None, dimension-coordinate, another coordinate) enumerated',
                   'rows': '1..3 with symbolic values'}
@@ -448,6 +482,29 @@ def replay_real(case):
 
     rng = np.random.default_rng(8)
     bad = []
+    if case.get('signature', '').startswith('C15:target'):
+        # file objects positioned by the caller: two tables in one stream, a title line in front of a table
+        def table(n):
+            return sc.DataArray(sc.array(dims=['tof'], values=rng.normal(size=n) * 10, variances=np.abs(rng.normal(size=n)) + 0.5, unit='counts'),
+                                coords={'tof': sc.array(dims=['tof'], values=np.sort(rng.normal(size=n) * 100), unit='us')})
+        for first, n in (('table', 4), ('title', 5), ('nothing', 3)):
+            f = io.StringIO()
+            if first == 'table':
+                xye.save_xye(f, table(7))
+            elif first == 'title':
+                f.write('1 2 3\n')
+            off = f.tell()
+            da = table(n)
+            xye.save_xye(f, da)
+            f.seek(off)
+            try:
+                out = xye.load_xye(f, dim='tof', unit='counts', coord_unit='us')
+            except Exception as e:  # noqa: BLE001
+                bad.append(f'load from a stream positioned behind a {first}: {type(e).__name__}: {e}'[:200])
+                continue
+            if out.sizes != da.sizes or not np.array_equal(out.values, da.values) or not np.array_equal(out.coords['tof'].values, da.coords['tof'].values):
+                bad.append(f'load from a stream positioned behind a {first}: {out.sizes["tof"]} rows loaded, {n} rows saved at that position')
+        return {'reproduced': bool(bad), 'detail': '; '.join(bad[:2])}
     if case.get('kind') == 'save' and case.get('model'):
         m = case['model']
 
